@@ -145,8 +145,8 @@ def run(prop, tier):
         ctx.add(evaluations=tot_seq, transitions=tot_ops, states=tot_seq)
         ctx.part("heap", max_len=L, keys=3, sequences=tot_seq, operations=tot_ops)
 
-        tools = build.tools("plain", ["ovnidump", "ovniemu"])
-        dump, emu = tools["ovnidump"], tools["ovniemu"]
+        tools = build.tools("plain", ["ovnidump", "ovniemu", "ovnitop"])
+        dump, emu, top = tools["ovnidump"], tools["ovniemu"], tools["ovnitop"]
         base = scratch.sub("t")
 
         # ---- (b) ovnidump on stream sets
@@ -180,7 +180,25 @@ def run(prop, tier):
             rc, out, err = emusrv.run_tool(dump, ["-x", td])
             if rc != 0:
                 return "ovnidump exit %r: %s" % (rc, err[-200:])
-            return check_dump(out, st)
+            msg = check_dump(out, st)
+            if msg:
+                return msg
+            # ovnitop consumes the same merged sequence: every event counted exactly once
+            rc, out, err = emusrv.run_tool(top, [td])
+            if rc != 0:
+                return "ovnitop exit %r: %s" % (rc, err[-200:])
+            got = {}
+            for l in out.split("\n"):
+                k = l.split()
+                if len(k) == 2 and len(k[0]) == 3 and k[1].isdigit():
+                    got[k[0]] = int(k[1])
+            want = {}
+            for (_, _, _, evs) in st:
+                for (m, c, p) in evs:
+                    want[m] = want.get(m, 0) + 1
+            if got != want:
+                return "ovnitop counts %r, the streams hold %r" % (got, want)
+            return None
         for combo, msg in zip(jobs, pmap(one_dump, jobs)):
             ctx.add(evaluations=1, transitions=sum(len(c) for c in combo), traces_validated_against_impl=1)
             if msg:
